@@ -33,12 +33,8 @@ c19_gen = importlib.util.module_from_spec(_spec)
 _spec.loader.exec_module(c19_gen)
 
 IMPL = 'c19_sample.py'
-# Development hook (sensitivity tests of this check on a mutated COPY of the source tree; never set by
-# ./check, which runs under `env -i`): C19_SRC_OVERRIDE=/path/to/copy/src
-SRC_OVERRIDE = os.environ.get('C19_SRC_OVERRIDE')
-if SRC_OVERRIDE:
-    from pathlib import Path as _P
-    c19_gen.REPO_SRC = _P(SRC_OVERRIDE) / 'biogeme' / 'sampling_of_alternatives'
+# The source tree is common.REPO (VERIF_REPO test hook of ./check): ctx.impl sets PYTHONPATH from it and
+# lib/impl/c19_gen.py reads it.
 TOL_CORR = 1e-9     # |_log_proba - ln(k/n)|: the implementation's error is a few ulp of ln(n) <= 1e-15,
 #                     two different ratios with denominators <= 99 differ by >= 1e-4 in logarithm
 TOL_VAL = 1e-9      # relative tolerance on engine values (combined variables, log likelihoods)
@@ -382,6 +378,20 @@ def gen_mevdup_case(rng):
     return case
 
 
+def gen_overlap_sample_case(rng):
+    """strata that are NOT a partition: 3-5 segments, two of them (any positions, mostly non-adjacent) share an
+    alternative, the union still equals the full set; fully sampled.  Must be refused at construction; if it is
+    accepted the shared alternative is drawn from two strata and appears twice in the choice sets."""
+    case = gen_case(rng, 'sample', {'mode': 'full', 'mev': False, 'n_alt': rng.randint(6, 14)})
+    ids = sorted(int(a[0]) for a in case['alts'])
+    segs = gen_partition(rng, ids, rng.randint(3, 5))
+    i, j = overlap_pair(rng, len(segs), rng.random() < 0.7) or (0, 1)
+    segs[i] = sorted(set(segs[i]) | {rng.choice(segs[j])})
+    case.update(segments=segs, sizes=[len(s) for s in segs], full_set=ids if rng.random() < 0.7 else None,
+                mode='overlap', expect_refusal=True, overlap_positions=[i, j])
+    return case
+
+
 # =============================================================== Python oracle for one merged row
 def strata_of(case, which):
     segs = case['segments'] if which == 'first' else case['mev_segments']
@@ -444,6 +454,22 @@ def flat_view(case, row, pre, J, special):
 def oracle_sample_case(case, res):
     """all protocol violations of one implementation result (list of (kind, witness-detail))"""
     out = []
+    if case.get('expect_refusal'):
+        if not res.get('ok'):
+            exc = str(res.get('exc'))
+            return [] if exc.startswith(('ValueError', 'BiogemeError')) else [('exception', exc)]
+        dup = None
+        for n, d in enumerate(res.get('direct', [])):
+            rows = d.get('first', {}).get('rows', [])
+            cols = d.get('first', {}).get('columns', [])
+            if case['id_col'] in cols:
+                got = [as_int(r[cols.index(case['id_col'])]) for r in rows]
+                if len(set(got)) != len(got):
+                    dup = {'individual': n, 'sampled_ids': got}
+                    break
+        return [('non-partition-accepted', {'segments': case['segments'], 'overlap_positions': case.get('overlap_positions'),
+                                            'expected': 'ValueError from Partition (segments intersect)',
+                                            'duplicate_in_choice_set': dup})]
     if not res.get('ok'):
         return [('exception', res.get('exc'))]
     J = sum(case['sizes'])
@@ -601,8 +627,7 @@ def shard(cases, n):
 
 def run_impl(ctx, cases, nshards=16, timeout=1500):
     shards = shard(cases, nshards)
-    outs = ctx.impl_parallel(IMPL, [[c for _, c in sh] for sh in shards], timeout=timeout,
-                             extra_env={'PYTHONPATH': SRC_OVERRIDE} if SRC_OVERRIDE else None)
+    outs = ctx.impl_parallel(IMPL, [[c for _, c in sh] for sh in shards], timeout=timeout)
     res = [None] * len(cases)
     for sh, o in zip(shards, outs):
         for (i, _), r in zip(sh, o):
@@ -643,6 +668,8 @@ def stream_sample(ctx):
               {'n_alt': 5}, {'n_alt': 30, 'mev': True}]
     for i in range(n):
         cases.append(gen_case(rng, 'sample', forced[i] if i < len(forced) else None))
+    for i in range(ctx.n(6, 40)):
+        cases.append(gen_overlap_sample_case(rng))
     res = run_impl(ctx, cases)
     files, meta = {}, {}
     G = 3
@@ -658,6 +685,8 @@ def stream_sample(ctx):
                 ctx.violation(f'C19/sample/{kind}', f'sampling protocol violated ({kind})',
                               {'case': c, 'detail': det}, 'the protocol of C19', det,
                               how='./check C19 --replay <this file>')
+            if c.get('expect_refusal'):
+                continue   # the model refuses (partition_accepts = false, see stream validate); nothing to evaluate
             if not r.get('ok') or len(r['merged']['rows']) != len(c['inds']):
                 st.disagree(case_summary(c), 'model: a data base with one row per individual', r.get('exc', 'wrong shape'))
                 continue
@@ -848,14 +877,36 @@ def stream_full(ctx):
         ctx.stream_broken('full', f'{len(st.disagreements)} disagreements, first: {json.dumps(st.disagreements[0])[:900]}')
 
 
+def overlap_pair(rng, nseg, nonadjacent):
+    """ordered pair (i, j), i != j, of segment positions: every position pair is reachable (first/last,
+    non-adjacent, either order); nonadjacent forces |i - j| >= 2"""
+    pairs = [(i, j) for i in range(nseg) for j in range(nseg) if i != j and (not nonadjacent or abs(i - j) >= 2)]
+    return rng.choice(pairs) if pairs else None
+
+
 def gen_validate_case(rng):
-    universe = sorted(rng.sample(range(1, 40), rng.randint(1, 10)))
-    nseg = rng.randint(0, 4) if rng.random() < 0.1 else rng.randint(1, 4)
+    kind = rng.choice(['valid', 'valid', 'overlap', 'overlap-nonadj', 'overlap-nonadj', 'missing', 'extra', 'empty-seg',
+                       'nofull', 'emptyfull'])
+    if kind == 'overlap-nonadj':
+        universe = sorted(rng.sample(range(1, 40), rng.randint(5, 14)))
+        nseg = rng.randint(3, 5)
+    elif kind == 'overlap':
+        universe = sorted(rng.sample(range(1, 40), rng.randint(3, 14)))
+        nseg = rng.randint(2, 5)
+    else:
+        universe = sorted(rng.sample(range(1, 40), rng.randint(1, 14)))
+        nseg = rng.randint(0, 5) if rng.random() < 0.1 else rng.randint(1, 5)
     segs = gen_partition(rng, universe, nseg) if nseg else []
     full = list(universe)
-    kind = rng.choice(['valid', 'valid', 'overlap', 'missing', 'extra', 'empty-seg', 'nofull', 'emptyfull'])
-    if kind == 'overlap' and len(segs) >= 2:
-        segs[0] = sorted(set(segs[0]) | {rng.choice(segs[1])})
+    pair = None
+    if kind in ('overlap', 'overlap-nonadj'):
+        pair = overlap_pair(rng, len(segs), kind == 'overlap-nonadj')
+        if pair:   # the union is unchanged: only the disjointness test can refuse
+            i, j = pair
+            extra = rng.sample(segs[j], rng.randint(1, min(2, len(segs[j]))))
+            segs[i] = sorted(set(segs[i]) | set(extra))
+            if rng.random() < 0.3:
+                full = None
     elif kind == 'missing':
         full = sorted(set(full) | {rng.randint(41, 50)})
     elif kind == 'extra' and segs:
@@ -874,7 +925,8 @@ def gen_validate_case(rng):
     if rng.random() < 0.25 and table:
         table.remove(rng.choice(table))
     rng.shuffle(table)
-    return {'kind': 'validate', 'segments': segs, 'full_set': full, 'sizes': sizes, 'table': table, 'variant': kind}
+    return {'kind': 'validate', 'segments': segs, 'full_set': full, 'sizes': sizes, 'table': table, 'variant': kind,
+            'overlap_positions': list(pair) if pair else None}
 
 
 def py_is_partition(segs, full):
@@ -895,7 +947,7 @@ def py_check_partition(c):
 
 def stream_validate(ctx):
     st = ctx.stream('validate',
-                    'segment lists (0-4 segments over up to 10 ids): valid, overlapping, not covering, exceeding the full set, '
+                    'segment lists (0-5 segments over up to 14 ids): valid, overlapping at EVERY ordered pair of positions (adjacent, non-adjacent, first/last), not covering, exceeding the full set, '
                     'with an empty segment, without / with an empty full set; sizes in {1, n, n-1, 0, n+1, -1, random}; tables with a '
                     'missing id; non-trivial = every generated case; distinct by case')
     rng = ctx.sub_rng('validate')
@@ -940,7 +992,8 @@ def stream_validate(ctx):
             if not (bs[2 * j] and bs[2 * j + 1]):
                 st.disagree(cases[g + j], 'partition_accepts / check_partition_accepts', res[g + j])
     st.extra['variants'] = {v: sum(1 for c in cases if c.get('variant') == v)
-                            for v in ('valid', 'overlap', 'missing', 'extra', 'empty-seg', 'nofull', 'emptyfull')}
+                            for v in ('valid', 'overlap', 'overlap-nonadj', 'missing', 'extra', 'empty-seg', 'nofull', 'emptyfull')}
+    st.extra['overlap_position_pairs'] = sorted({tuple(c['overlap_positions']) for c in cases if c.get('overlap_positions')})
     if st.disagreements:
         ctx.stream_broken('validate', f'{len(st.disagreements)} disagreements, first: {json.dumps(st.disagreements[0])[:600]}')
 
